@@ -427,7 +427,7 @@ impl Check for C18 {
             for block in [true, false] {
                 for strategy in 0..3u64 {
                     for first in [json!(["arrive", "P"]), json!(["arrive", "Q"])] {
-                        u.push(json!({"limit":limit,"block":block,"strategy":strategy,"depth":tier.pick(8, 10),"max_reqs":tier.pick(4, 5),"prefix":[first]}));
+                        u.push(json!({"limit":limit,"block":block,"strategy":strategy,"depth":tier.pick(10, 13),"max_reqs":tier.pick(5, 6),"prefix":[first]}));
                     }
                 }
             }
